@@ -21,6 +21,7 @@ type vVector struct {
 	Choices []int64             `json:"choices"`
 	Sched   []int64             `json:"sched"`
 	Hashes  []vHashTarget       `json:"hashes"`
+	Records map[string][]int64  `json:"records"`
 	Seed    uint32              `json:"seed"`
 }
 
@@ -148,6 +149,17 @@ func vObserveBytes(label string, b []byte) {
 	vMu.Unlock()
 }
 func vLog(msg string)               {}
+func vRecord(name string, val int)  {}
+
+// vRecorded returns the i-th value recorded under name by the engine on the
+// counterexample path (-1 if there is none).
+func vRecorded(name string, i int) int {
+	l := vVec.Records[name]
+	if i < len(l) {
+		return int(l[i])
+	}
+	return -1
+}
 func vAnd(a, b bool) bool           { return a && b }
 func vOr(a, b bool) bool            { return a || b }
 func vNot(a bool) bool              { return !a }
